@@ -16,7 +16,7 @@ TRUSTED_BASE = ["models coq/Model/Flow.v (SendControler, Credit, RecvController)
 MODELLED = ("qbase/src/flow.rs; qrecovery/src/streams/raw.rs (try_load_data_into_once, revise_params, open/accept window choice), streams/io.rs, "
             "streams/listener.rs, send/sender.rs, send/outgoing.rs, send/writer.rs, BufMap::pick of send/sndbuf.rs (acknowledgements: C09), recv/recver.rs. "
             "qbase/src/param/core.rs only provides the six ParameterIds; qconnection's glue is replicated in the harness (3 lines).")
-ASSUMPTIONS = ["0-RTT rejection is outside c11_conn_limit (stated as the guard `no rejected handshake`): the code keeps sent_data across a rejection",
+ASSUMPTIONS = ["0-RTT rejection is outside c11_conn_limit (stated as the guard `no rejected handshake`): the code keeps sent_data across a rejection = open finding F34",
                "packet capacities <= 65536; offset+length <= 2^62-1; an accepted 0-RTT handshake does not shrink remembered parameters",
                "an empty non-FIN STREAM frame beyond the received data advances Recv.largest without being counted (observation O1 in the report): "
                "cases containing one are excluded from the connection-level receive clause"]
@@ -31,15 +31,44 @@ MANIFEST = {
             "decrease. Tied to the Rust by running the extracted models against the real DataStreams and FlowController on the same op lists each run; "
             "the clauses are also evaluated directly on the implementation's observations.",
     "note": "Trusted: Coq kernel, extraction, OCaml driver, Rust harness, Python generators/oracle. Models hand-written; correspondence checked, not proved. "
-            "F12/F13/F26 are listed in known_findings.json (open = KNOWN-FINDING lines; fixed = the stream registry selects run_streams_fixed).",
+            "F12/F13/F26/F33 are listed in known_findings.json (open = KNOWN-FINDING lines; fixed = the stream registry selects run_streams_fixed); F34 (sent_data kept across a 0-RTT rejection, `max_data - sent_data` underflows) is open.",
     "technique": "Coq proof (invariants over operation lists) + differential correspondence model/implementation + direct oracle",
 }
 
 oracle = sc.oracle_for(sc.C11_CLAUSES)
 
 
+def _rejected_after_load(case):
+    loaded = False
+    for t, a in case.ops:
+        if t == 6:
+            loaded = True
+        if t == 0 and a[0] and loaded:
+            return True
+    return False
+
+
 def classify(case, msg, obs):
+    """only findings listed as OPEN in known_findings.json are classified; a repaired class is a violation again"""
+    import vlib
+    fid = _classify(case, msg, obs)
+    return fid if fid in {e["id"] for e in vlib.load_known("C11")} else None
+
+
+def classify_diff(case, io, mo):
+    """F34: the implementation panics in credit() after a 0-RTT rejection (the model's outcome is the inert None branch)"""
+    import vlib
+    if "F34" in {e["id"] for e in vlib.load_known("C11")} and _rejected_after_load(case) and io and io[-1].startswith("! panic"):
+        return "F34"
+    return None
+
+
+def _classify(case, msg, obs):
     cf = sc.cfg_of(case)
+    if msg.startswith("abnormal:") and "panic" in msg and _rejected_after_load(case):
+        return "F34"
+    if msg.startswith("rejectsend:"):
+        return "F33"
     if msg.startswith("progress:") and "locally-initiated uni" in msg and cf["R"].sdu > cf["R"].sdbr:
         return "F12"
     if msg.startswith("streamlimit:"):
@@ -175,7 +204,7 @@ def flow_oracle(case, obs):
             if v[0] == -3:
                 if not rejected:
                     return "connlimit: op %d CREDIT: arithmetic panic (max_data - sent_data underflow) without a 0-RTT rejection" % k
-                break
+                return "connlimit: op %d CREDIT: arithmetic panic: after a 0-RTT rejection sent_data (%d) is above the new max_data (%d)" % (k, posted + outstanding, limit)
             want = min(a[0], limit - posted - outstanding)
             if want < 0 and not rejected:
                 return "connlimit: op %d: charged %d exceeds the limit %d" % (k, posted + outstanding, limit)
@@ -260,12 +289,23 @@ def _flow_gen(rng, tier):
             elif r < 0.97:
                 ops.append((4, [rng.choice([0, 1, 2, rl // 2, rl, rl + 1, rng.randint(0, 600)])]))
             else:
-                v = rng.choice([limit, limit + 50, charged + 10, charged])
+                v = rng.choice([limit, limit + 50, charged + 10, charged, charged // 2, max(0, charged - 1)])
                 rej = 1 if rng.random() < 0.3 else 0
                 limit = v if rej else max(limit, v)
                 ops.append((5, [rej, v]))
+                if rej and v < charged:
+                    # F34 is armed (sent_data above the new limit): one more credit() shows it, then the case ends
+                    ops.append((0, [rng.choice([0, 1, 10, 1200])]))
+                    break
         out.append(Case("f%d" % i, ops, [limit0, rl]))
     return out
+
+
+def flow_classify(case, msg, obs):
+    import vlib
+    if "after a 0-RTT rejection" in msg and "F34" in {e["id"] for e in vlib.load_known("C11")}:
+        return "F34"
+    return None
 
 
 def flow_nontrivial(case):
@@ -314,10 +354,10 @@ def flow_mutate(rng, case, j):
 
 STREAMS = [{
     "name": "streams", "pkg": "hr", "bin": "impl_streams",
-    "gen": gen, "oracle": oracle, "nontrivial": nontrivial, "hist": hist, "mutate": mutate, "classify": classify,
+    "gen": gen, "oracle": oracle, "nontrivial": nontrivial, "hist": hist, "mutate": mutate, "classify": classify, "classify_diff": classify_diff,
     "profiles": ("debug",), "profiles_thorough": ("debug",), "rule": RULE,
 }, {
     "name": "flow", "pkg": "hr", "bin": "impl_flow",
-    "gen": _flow_gen, "oracle": flow_oracle, "nontrivial": flow_nontrivial, "hist": flow_hist, "mutate": flow_mutate,
+    "gen": _flow_gen, "oracle": flow_oracle, "nontrivial": flow_nontrivial, "hist": flow_hist, "mutate": flow_mutate, "classify": flow_classify,
     "profiles": ("debug",), "profiles_thorough": ("debug",), "rule": RULE,
 }]
